@@ -25,6 +25,7 @@ import (
 	"github.com/regclient/regclient/config"
 	"github.com/regclient/regclient/types/descriptor"
 	"github.com/regclient/regclient/types/manifest"
+	"github.com/regclient/regclient/types/ref"
 
 	"verif/ev"
 	"verif/gen"
@@ -46,6 +47,28 @@ type env struct {
 	artRaw       []byte
 	artMT        string
 	initialBlobs map[string]bool
+	alias        string // when set, the client knows the registry under this name (config Name) and reaches it at up.Addr() (config Hostname)
+}
+
+// ref names a manifest / repository of the upstream registry the way the client's configuration knows it.
+func (e *env) ref(tagOrDigest string) ref.Ref { return e.refIn(e.repo, tagOrDigest) }
+
+func (e *env) refIn(repo, tagOrDigest string) ref.Ref {
+	r := rcx.Ref(e.up, repo, tagOrDigest)
+	if e.alias == "" {
+		return r
+	}
+	s := e.alias + "/" + repo
+	if strings.Contains(tagOrDigest, ":") {
+		s += "@" + tagOrDigest
+	} else if tagOrDigest != "" {
+		s += ":" + tagOrDigest
+	}
+	ra, err := ref.New(s)
+	if err != nil {
+		panic(err)
+	}
+	return ra
 }
 
 func newEnv(seed int64, nMirrors int, api bool) *env {
@@ -117,6 +140,9 @@ func (e *env) client(retry int, delayInit, delayMax time.Duration, prio map[stri
 			for _, m := range e.mirrors {
 				c.Mirrors = append(c.Mirrors, m.Addr())
 			}
+			if e.alias != "" {
+				c.Name, c.Hostname = e.alias, e.up.Addr()
+			}
 		}
 		if p, ok := prio[name]; ok {
 			c.Priority = p
@@ -187,7 +213,7 @@ func someImage(e *env) *gen.Node {
 func ops() []operation {
 	return []operation{
 		{"manifest-get-tag", false, func(ctx context.Context, rc *regclient.RegClient, e *env) (string, error) {
-			m, err := rc.ManifestGet(ctx, rcx.Ref(e.up, e.repo, "v1"))
+			m, err := rc.ManifestGet(ctx, e.ref("v1"))
 			if err != nil {
 				return "", err
 			}
@@ -195,7 +221,7 @@ func ops() []operation {
 			return fmt.Sprintf("%s %d", m.GetDescriptor().Digest, len(raw)), nil
 		}},
 		{"manifest-get-digest", false, func(ctx context.Context, rc *regclient.RegClient, e *env) (string, error) {
-			m, err := rc.ManifestGet(ctx, rcx.Ref(e.up, e.repo, someImage(e).Digest))
+			m, err := rc.ManifestGet(ctx, e.ref(someImage(e).Digest))
 			if err != nil {
 				return "", err
 			}
@@ -203,7 +229,7 @@ func ops() []operation {
 			return fmt.Sprintf("%s %x", m.GetDescriptor().Digest, sha256.Sum256(raw)), nil
 		}},
 		{"manifest-head", false, func(ctx context.Context, rc *regclient.RegClient, e *env) (string, error) {
-			m, err := rc.ManifestHead(ctx, rcx.Ref(e.up, e.repo, "v1"))
+			m, err := rc.ManifestHead(ctx, e.ref("v1"))
 			if err != nil {
 				return "", err
 			}
@@ -211,7 +237,7 @@ func ops() []operation {
 		}},
 		{"blob-get", false, func(ctx context.Context, rc *regclient.RegClient, e *env) (string, error) {
 			l := firstLayer(e)
-			r, err := rc.BlobGet(ctx, rcx.Ref(e.up, e.repo, ""), descriptor.Descriptor{Digest: digest.Digest(l.Digest), Size: int64(len(l.Content))})
+			r, err := rc.BlobGet(ctx, e.ref(""), descriptor.Descriptor{Digest: digest.Digest(l.Digest), Size: int64(len(l.Content))})
 			if err != nil {
 				return "", err
 			}
@@ -224,14 +250,14 @@ func ops() []operation {
 		}},
 		{"blob-head", false, func(ctx context.Context, rc *regclient.RegClient, e *env) (string, error) {
 			l := firstLayer(e)
-			r, err := rc.BlobHead(ctx, rcx.Ref(e.up, e.repo, ""), descriptor.Descriptor{Digest: digest.Digest(l.Digest)})
+			r, err := rc.BlobHead(ctx, e.ref(""), descriptor.Descriptor{Digest: digest.Digest(l.Digest)})
 			if err != nil {
 				return "", err
 			}
 			return string(r.GetDescriptor().Digest), nil
 		}},
 		{"tag-list", false, func(ctx context.Context, rc *regclient.RegClient, e *env) (string, error) {
-			tl, err := rc.TagList(ctx, rcx.Ref(e.up, e.repo, ""))
+			tl, err := rc.TagList(ctx, e.ref(""))
 			if err != nil {
 				return "", err
 			}
@@ -249,7 +275,7 @@ func ops() []operation {
 			return strings.Join(rs, ","), err
 		}},
 		{"referrer-list", false, func(ctx context.Context, rc *regclient.RegClient, e *env) (string, error) {
-			rl, err := rc.ReferrerList(ctx, rcx.Ref(e.up, e.repo, e.g.Nodes[e.g.Top].Digest))
+			rl, err := rc.ReferrerList(ctx, e.ref(e.g.Nodes[e.g.Top].Digest))
 			if err != nil {
 				return "", err
 			}
@@ -261,27 +287,27 @@ func ops() []operation {
 			return strings.Join(ds, ","), nil
 		}},
 		{"blob-put-mono", true, func(ctx context.Context, rc *regclient.RegClient, e *env) (string, error) {
-			d, err := rc.BlobPut(ctx, rcx.Ref(e.up, "other/repo", ""), descriptor.Descriptor{Digest: digest.Digest(la.Digest("sha256", e.extra)), Size: int64(len(e.extra))}, bytes.NewReader(e.extra))
+			d, err := rc.BlobPut(ctx, e.refIn("other/repo", ""), descriptor.Descriptor{Digest: digest.Digest(la.Digest("sha256", e.extra)), Size: int64(len(e.extra))}, bytes.NewReader(e.extra))
 			return string(d.Digest), err
 		}},
 		{"blob-put-chunked", true, func(ctx context.Context, rc *regclient.RegClient, e *env) (string, error) {
-			d, err := rc.BlobPut(ctx, rcx.Ref(e.up, "other/repo", ""), descriptor.Descriptor{}, bytes.NewReader(e.extra))
+			d, err := rc.BlobPut(ctx, e.refIn("other/repo", ""), descriptor.Descriptor{}, bytes.NewReader(e.extra))
 			return string(d.Digest), err
 		}},
 		{"blob-delete", true, func(ctx context.Context, rc *regclient.RegClient, e *env) (string, error) {
 			l := firstLayer(e)
-			return "", rc.BlobDelete(ctx, rcx.Ref(e.up, e.repo, ""), descriptor.Descriptor{Digest: digest.Digest(l.Digest)})
+			return "", rc.BlobDelete(ctx, e.ref(""), descriptor.Descriptor{Digest: digest.Digest(l.Digest)})
 		}},
 		{"blob-mount", true, func(ctx context.Context, rc *regclient.RegClient, e *env) (string, error) {
 			l := firstLayer(e)
-			return "", rc.BlobMount(ctx, rcx.Ref(e.up, e.repo, ""), rcx.Ref(e.up, "other/repo", ""), descriptor.Descriptor{Digest: digest.Digest(l.Digest), Size: int64(len(l.Content))})
+			return "", rc.BlobMount(ctx, e.ref(""), e.refIn("other/repo", ""), descriptor.Descriptor{Digest: digest.Digest(l.Digest), Size: int64(len(l.Content))})
 		}},
 		{"manifest-put", true, func(ctx context.Context, rc *regclient.RegClient, e *env) (string, error) {
 			m, err := manifest.New(manifest.WithRaw(e.artRaw), manifest.WithDesc(descriptor.Descriptor{MediaType: e.artMT}))
 			if err != nil {
 				return "", fmt.Errorf("harness: %w", err)
 			}
-			return "", rc.ManifestPut(ctx, rcx.Ref(e.up, e.repo, "art"), m)
+			return "", rc.ManifestPut(ctx, e.ref("art"), m)
 		}},
 		{"manifest-delete", true, func(ctx context.Context, rc *regclient.RegClient, e *env) (string, error) {
 			var ref *gen.Node
@@ -290,13 +316,13 @@ func ops() []operation {
 					ref = n
 				}
 			}
-			return "", rc.ManifestDelete(ctx, rcx.Ref(e.up, e.repo, ref.Digest), regclient.WithManifestCheckReferrers())
+			return "", rc.ManifestDelete(ctx, e.ref(ref.Digest), regclient.WithManifestCheckReferrers())
 		}},
 		{"tag-delete", true, func(ctx context.Context, rc *regclient.RegClient, e *env) (string, error) {
-			return "", rc.TagDelete(ctx, rcx.Ref(e.up, e.repo, "c3"))
+			return "", rc.TagDelete(ctx, e.ref("c3"))
 		}},
 		{"image-copy-same-reg", true, func(ctx context.Context, rc *regclient.RegClient, e *env) (string, error) {
-			return "", rc.ImageCopy(ctx, rcx.Ref(e.up, e.repo, "v1"), rcx.Ref(e.up, "other/repo", "copy"))
+			return "", rc.ImageCopy(ctx, e.ref("v1"), e.refIn("other/repo", "copy"))
 		}},
 	}
 }
@@ -627,7 +653,7 @@ func retryAfterAcrossSuccess() {
 		ctx, cancel := context.WithTimeout(context.Background(), 30*time.Second)
 		aDone, bDone := make(chan error, 1), make(chan error, 1)
 		go func() {
-			rd, err := rc.BlobGet(ctx, rcx.Ref(e.up, e.repo, "v1"), descriptor.Descriptor{Digest: digest.Digest(layer.Digest)})
+			rd, err := rc.BlobGet(ctx, e.ref("v1"), descriptor.Descriptor{Digest: digest.Digest(layer.Digest)})
 			if err == nil {
 				_, err = io.Copy(io.Discard, rd)
 				_ = rd.Close()
@@ -642,7 +668,7 @@ func retryAfterAcrossSuccess() {
 		}
 		if ok {
 			go func() {
-				_, err := rc.ManifestHead(ctx, rcx.Ref(e.up, e.repo, img.Digest))
+				_, err := rc.ManifestHead(ctx, e.ref(img.Digest))
 				bDone <- err
 			}()
 			select {
@@ -663,7 +689,7 @@ func retryAfterAcrossSuccess() {
 		if !ok {
 			run.Count("retry_after_interleavings_not_reached", 1)
 		} else {
-			_, errC := rc.TagList(ctx, rcx.Ref(e.up, e.repo, "v1"))
+			_, errC := rc.TagList(ctx, e.ref("v1"))
 			<-bDone
 			mu.Lock()
 			gap := tC.Sub(tReply)
@@ -731,11 +757,11 @@ func terminationAfterFailures() {
 				body := make([]byte, 300+rng.Intn(500))
 				rng.Read(body)
 				d := descriptor.Descriptor{Digest: digest.FromBytes(body), Size: int64(len(body))}
-				_, err = rc.BlobPut(ctx, rcx.Ref(e.up, e.repo, ""), d, io.MultiReader(bytes.NewReader(body)))
+				_, err = rc.BlobPut(ctx, e.ref(""), d, io.MultiReader(bytes.NewReader(body)))
 			case "blob-abandoned":
 				set("")
 				var rd io.ReadCloser
-				rd, err = rc.BlobGet(ctx, rcx.Ref(e.up, e.repo, ""), descriptor.Descriptor{Digest: digest.Digest(layer.Digest)})
+				rd, err = rc.BlobGet(ctx, e.ref(""), descriptor.Descriptor{Digest: digest.Digest(layer.Digest)})
 				if err == nil {
 					_, _ = rd.Read(make([]byte, 8))
 					err = rd.Close()
@@ -743,7 +769,7 @@ func terminationAfterFailures() {
 			case "blob-cancelled":
 				set("stall")
 				c2, cancel2 := context.WithTimeout(ctx, 150*time.Millisecond)
-				_, err = rc.BlobGet(c2, rcx.Ref(e.up, e.repo, ""), descriptor.Descriptor{Digest: digest.Digest(layer.Digest)})
+				_, err = rc.BlobGet(c2, e.ref(""), descriptor.Descriptor{Digest: digest.Digest(layer.Digest)})
 				cancel2()
 			}
 			cancel()
@@ -754,7 +780,7 @@ func terminationAfterFailures() {
 			for j := 0; j < 8; j++ {
 				c3, cancel3 := context.WithTimeout(context.Background(), 15*time.Second)
 				before := e.w.Requests()
-				_, herr := rc.ManifestHead(c3, rcx.Ref(e.up, e.repo, img.Digest))
+				_, herr := rc.ManifestHead(c3, e.ref(img.Digest))
 				expired := c3.Err() != nil
 				cancel3()
 				if herr != nil && expired && e.w.Requests() == before {
@@ -770,7 +796,7 @@ func terminationAfterFailures() {
 		set("")
 		ctx, cancel := context.WithTimeout(context.Background(), 15*time.Second)
 		before := e.w.Requests()
-		_, err := rc.ManifestHead(ctx, rcx.Ref(e.up, e.repo, img.Digest))
+		_, err := rc.ManifestHead(ctx, e.ref(img.Digest))
 		expired := ctx.Err() != nil
 		cancel()
 		e.w.WaitIdle()
@@ -848,6 +874,12 @@ func mirrors() {
 		}
 		if rng.Intn(4) == 0 {
 			has["upstream"] = "lacks-manifest"
+		}
+		if i%3 == 2 {
+			// the registry is configured under a name that differs from the host it is reached at (as docker.io
+			// is, or any entry with a hostname of its own): "the named registry" is the entry, whatever its address
+			e.alias = "registry.alias.test"
+			run.Count("mirror_cases_with_registry_name_differing_from_hostname", 1)
 		}
 		rc := e.client(3, time.Millisecond, 2*time.Millisecond, prio)
 		// read: order of first attempts and fallback
@@ -1012,7 +1044,7 @@ func mirrorIgnoringRange() {
 		rc := e.client(3, time.Millisecond, 2*time.Millisecond, map[string]uint{"upstream": 1, m.Name: 1})
 		ctx, cancel := context.WithTimeout(context.Background(), 20*time.Second)
 		var got []byte
-		rd, err := rc.BlobGet(ctx, rcx.Ref(e.up, e.repo, ""), descriptor.Descriptor{Digest: digest.Digest(layer.Digest), Size: int64(len(layer.Content))})
+		rd, err := rc.BlobGet(ctx, e.ref(""), descriptor.Descriptor{Digest: digest.Digest(layer.Digest), Size: int64(len(layer.Content))})
 		if err == nil {
 			got, err = io.ReadAll(rd)
 			_ = rd.Close()
